@@ -414,18 +414,15 @@ Proof. split; reflexivity. Qed.
 Print Assumptions C17_generated_facts_present.
 
 (* ====================================================================================== *)
-(* Glue (theories/Glue/GluePreorder.v): the edge enumeration [desc_p] (every node below s paired with its
+(* Glue (theories/Glue/GluePreExport.v): the edge enumeration [desc_p] (every node below s paired with its
    _parent node) is, as (parent id, id, payload) triples, exactly the row list of the mutation machine
-   (Mut/SurgeryFacts.v [rows], the flattening all C01-C04 / heap theorems speak about) and exactly the
-   (parent id, node) enumeration of the serialisation model (Serialize.pre_par, C12). *)
-From NT Require SurgeryFacts Serialize GluePreorder.
+   (Mut/SurgeryFacts.v [rows], the flattening all C01-C04 / heap theorems speak about); C12 identifies the
+   same row list with the (parent id, node) enumeration of the serialisation model. *)
+From NT Require SurgeryFacts GluePreExport.
 
 Theorem C17_edges_are_the_machines_rows : forall t,
-  map GluePreorder.edge_row (desc_p t) = SurgeryFacts.rows (rid t) (rch t).
-Proof. exact GluePreorder.desc_p_rows. Qed.
+  map GluePreExport.edge_row (desc_p t) = SurgeryFacts.rows (rid t) (rch t).
+Proof. exact GluePreExport.desc_p_rows. Qed.
 Print Assumptions C17_edges_are_the_machines_rows.
 
-Theorem C17_edges_are_the_serialisation_order : forall t,
-  map GluePreorder.edge_row (desc_p t) = map GluePreorder.par_row (flat_map (Serialize.pre_par (rid t)) (rch t)).
-Proof. exact GluePreorder.desc_p_pre_par. Qed.
-Print Assumptions C17_edges_are_the_serialisation_order.
+(* with C12_preorder_is_the_machines_rows (same row list) the edges are also in the serialisation order *)
